@@ -139,6 +139,23 @@ func TimeAlphabet() []Sym {
 	return a
 }
 
+// AuthorAlphabet is the alphabet of the commit runs: a small kind set, every operation by author A
+// or B, staged through the *Raw methods of cache.BugCache (what a bridge import does). "edit(other)"
+// edits the latest comment written by the other author (the create comment counts as A's).
+func AuthorAlphabet() []Sym {
+	var a []Sym
+	for au, n := range []string{"A", "B"} {
+		a = append(a,
+			Sym{Name: "set-title/by-" + n, Kind: "title", Author: au, Inc: true},
+			Sym{Name: "add-comment/by-" + n, Kind: "add", Author: au, Inc: true},
+			Sym{Name: "edit(latest comment of the other author)/by-" + n, Kind: "edit", Target: "other", Author: au, Inc: true},
+			Sym{Name: "close/by-" + n, Kind: "close", Author: au, Inc: true},
+			Sym{Name: "open/by-" + n, Kind: "open", Author: au, Inc: true},
+		)
+	}
+	return a
+}
+
 func filter(a []Sym, f func(Sym) bool) []Sym {
 	var out []Sym
 	for _, s := range a {
@@ -208,12 +225,16 @@ type builder struct {
 	b     *bug.Bug
 	c     *cache.BugCache // nil on the full path
 	kinds []string        // kind of every operation so far, index = operation index
+	// authors[i] is the author index of operation i; accepted lists the operations in the order the
+	// API accepted them (the reference folds in this order, whatever a later Commit does to the entity)
+	authors  []int
+	accepted []dag.Operation
 }
 
 func (bd *builder) target() bug.Interface { return bd.b }
 
 // resolve returns the id designated by an edit / metadata target, ok=false when the sequence has no such operation.
-func (bd *builder) resolve(target string) (entity.Id, bool) {
+func (bd *builder) resolve(target string, by ...int) (entity.Id, bool) {
 	ops := bd.b.Operations()
 	nth := func(kind string, n int) (entity.Id, bool) {
 		for i, k := range bd.kinds {
@@ -245,6 +266,14 @@ func (bd *builder) resolve(target string) (entity.Id, bool) {
 		return nth("add", 2)
 	case "unknown":
 		return unknownId, true
+	case "other":
+		// latest comment (create included) written by the other author, in accepted order
+		for i := len(bd.kinds) - 1; i >= 0; i-- {
+			if (bd.kinds[i] == "add" || bd.kinds[i] == "create") && bd.authors[i] != by[0] {
+				return bd.accepted[i].Id(), true
+			}
+		}
+		return "", false
 	case "tl":
 		return last("title", "open", "close", "change", "force")
 	case "off":
@@ -284,7 +313,7 @@ func (bd *builder) apply(s Sym, pos int) (string, error) {
 			_, _, err = bug.AddComment(bd.b, author, t, msg, files, meta)
 		}
 	case "edit":
-		id, ok := bd.resolve(s.Target)
+		id, ok := bd.resolve(s.Target, s.Author)
 		if !ok {
 			return Inapplicable, nil
 		}
@@ -361,6 +390,9 @@ func (bd *builder) apply(s Sym, pos int) (string, error) {
 		return "", fmt.Errorf("%s at position %d: %d operations after the append, expected %d", s.Name, pos, len(bd.b.Operations()), n+1)
 	}
 	bd.kinds = append(bd.kinds, s.Kind)
+	bd.authors = append(bd.authors, s.Author)
+	all := bd.b.Operations()
+	bd.accepted = append(bd.accepted, all[len(all)-1]) // a new operation is staged last
 	return Built, nil
 }
 
@@ -409,7 +441,10 @@ func (env *Env) Run(syms []Sym, createFiles bool, mode string, forceAt int, crea
 	if cerr != nil {
 		return res, cerr
 	}
-	bd := &builder{env: env, b: b, kinds: []string{"create"}}
+	bd := &builder{env: env, b: b, kinds: []string{"create"}, authors: []int{0}, accepted: []dag.Operation{b.Operations()[0]}}
+	if mode == "commit" {
+		return env.runCommit(bd, syms, forceAt)
+	}
 	if mode == "incremental" {
 		bd.c = cache.NewBugCache(b, nil, nil, func(entity.Id) error { return nil })
 		if forceAt == 0 {
@@ -435,7 +470,7 @@ func (env *Env) Run(syms []Sym, createFiles bool, mode string, forceAt int, crea
 		return res, fmt.Errorf("sequence is not a valid bug: %v", verr)
 	}
 	data := make([]opData, 0, len(syms)+1)
-	for _, op := range b.Operations() {
+	for _, op := range bd.accepted {
 		d, rerr := readOp(op, env.Names)
 		if rerr != nil {
 			return res, rerr
@@ -488,6 +523,102 @@ func (env *Env) Run(syms []Sym, createFiles bool, mode string, forceAt int, crea
 	return res, nil
 }
 
+// interleaved says whether some uncommitted batch (operations between two commits) holds an author,
+// then another one, then the first again.
+func interleaved(authors []int, commitAfter func(i int) bool) bool {
+	start := 0
+	for end := 0; end < len(authors); end++ {
+		if commitAfter(end) || end == len(authors)-1 {
+			seen := map[int]int{} // author -> last run index
+			run := -1
+			prev := -1
+			for _, a := range authors[start : end+1] {
+				if a != prev {
+					run++
+					if _, ok := seen[a]; ok {
+						return true
+					}
+					prev = a
+				}
+				seen[a] = run
+			}
+			start = end + 1
+		}
+	}
+	return false
+}
+
+// runCommit is the commit mode: a cache.BugCache over an in-memory repository, its snapshot forced
+// before the appends, the operations staged through the *Raw methods, Commit called at the cuts of
+// mask and at the end. Judged against the reference fold in accepted order: the maintained snapshot
+// before the last commit, the same handle after it, a compilation from scratch of the wrapped entity
+// after it, and the bug read back from the repository.
+func (env *Env) runCommit(bd *builder, syms []Sym, mask int) (res Result, err error) {
+	repo := repository.NewMockRepo()
+	b := bd.b
+	bd.c = cache.NewBugCache(b, repo, nil, func(entity.Id) error { return nil })
+	bd.c.Snapshot()
+	commitAfter := func(i int) bool { return i >= 1 && i < len(syms) && mask&(1<<(i-1)) != 0 } // i = operation index
+	for i, s := range syms {
+		out, aerr := bd.apply(s, i+1)
+		if aerr != nil {
+			return res, aerr
+		}
+		if out != Built {
+			res.Outcome = out
+			return res, nil
+		}
+		if commitAfter(i + 1) {
+			if cerr := bd.c.Commit(); cerr != nil {
+				res.Outcome = Built
+				res.Found = append(res.Found, Found{"commit", "commit-fails", fmt.Sprintf("Commit after operation %d: %v", i+1, cerr)})
+				return res, nil
+			}
+		}
+	}
+	res.Outcome = Built
+	res.Ops = len(syms) + 1
+	data := make([]opData, 0, len(syms)+1)
+	for _, op := range bd.accepted {
+		d, rerr := readOp(op, env.Names)
+		if rerr != nil {
+			return res, rerr
+		}
+		data = append(data, d)
+	}
+	exp := Interpret(data)
+	res.Expect = &exp
+	suffix := ""
+	if interleaved(bd.authors, commitAfter) {
+		suffix = "-of-interleaved-authors"
+	}
+	report := func(oracle, stage string, ds []Diff) {
+		for _, d := range ds {
+			res.Found = append(res.Found, Found{oracle, d.Sig + "/" + stage, d.Detail})
+		}
+	}
+	vb := Observe(bd.c.Snapshot(), env.Names)
+	report("incremental-vs-reference", "before-commit", compareWithReference(vb, exp))
+	if cerr := bd.c.Commit(); cerr != nil {
+		res.Found = append(res.Found, Found{"commit", "commit-fails", fmt.Sprintf("final Commit: %v", cerr)})
+		return res, nil
+	}
+	va := Observe(bd.c.Snapshot(), env.Names)
+	res.Got = &va
+	report("incremental-vs-reference", "after-commit"+suffix, compareWithReference(va, exp))
+	vs := Observe(b.Compile(), env.Names)
+	report("scratch-vs-reference", "after-commit"+suffix, compareWithReference(vs, exp))
+	report("incremental-vs-scratch", "after-commit"+suffix, compareViews(va, vs))
+	rb, rerr := bug.ReadWithResolver(repo, env.resolvers(), b.Id())
+	if rerr != nil {
+		res.Found = append(res.Found, Found{"reload", "unreadable/after-commit" + suffix, fmt.Sprintf("the committed bug cannot be read back: %v", rerr)})
+		return res, nil
+	}
+	vr := Observe(rb.Compile(), env.Names)
+	report("reload-vs-reference", "after-commit"+suffix, compareWithReference(vr, exp))
+	return res, nil
+}
+
 func symNames(s []Sym) []string {
 	out := make([]string, len(s))
 	for i, x := range s {
@@ -498,7 +629,7 @@ func symNames(s []Sym) []string {
 
 func lookup(names []string) ([]Sym, error) {
 	byName := map[string]Sym{}
-	for _, s := range append(append(TimeAlphabet(), MetaAlphabet()...), Alphabet()...) {
+	for _, s := range append(append(append(AuthorAlphabet(), TimeAlphabet()...), MetaAlphabet()...), Alphabet()...) {
 		byName[s.Name] = s
 	}
 	var out []Sym
